@@ -1352,6 +1352,7 @@ TARGETS = [
     ("lib.rs", "impl LeanString", "from_utf8_lossy", "LeanString.from_utf8_lossy", True),
     ("lib.rs", "impl LeanString", "from_utf16", "LeanString.from_utf16", True),
     ("lib.rs", "impl LeanString", "from_utf16_lossy", "LeanString.from_utf16_lossy", True),
+    ("lib.rs", "impl LeanString", "from_utf8_unchecked", "LeanString.from_utf8_unchecked", True),
     ("lib.rs", "impl From<char> for LeanString", "from", "LeanString.from_char_conv", True),
     ("lib.rs", "impl From<String> for LeanString", "from", "LeanString.from_string", True),
     ("lib.rs", "impl From<&String> for LeanString", "from", "LeanString.from_string_ref", True),
@@ -1418,6 +1419,7 @@ SIGS = {
     "LeanString.from_utf8": ([("buf", "ByteSlice")], "Rs Handle"), "LeanString.from_utf8_lossy": ([("buf", "ByteSlice")], "Handle"),
     "LeanString.from_utf16": ([("buf", "U16Slice")], "Rs Handle"),
     "LeanString.from_utf16_lossy": ([("buf", "U16Slice")], "Handle"),
+    "LeanString.from_utf8_unchecked": ([("buf", "ByteSlice")], "Handle"),
     "LeanString.from_char_conv": ([("value", "Chr")], "Handle"), "LeanString.from_string": ([("value", "Str")], "Handle"),
     "LeanString.from_string_ref": ([("value", "Str")], "Handle"), "LeanString.from_box": ([("value", "Str")], "Handle"),
     "LeanString.from_ls_ref": ([("value", "Handle")], "Handle"), "LeanString.from_str_trait": ([("s", "Str")], "Rs Handle"),
@@ -1434,6 +1436,7 @@ RENAMES = {
     "LeanString.from_iter_string": {"extend": "extend_string"},
     "LeanString.from_utf8": {"from": "from_str_ref"},
     "LeanString.from_utf16_lossy": {"collect": "from_iter_char"},
+    "LeanString.from_utf8_unchecked": {"from": "from_str_ref"},
     "LeanString.extend_char_ref": {"extend": "extend_char"},
     "LeanString.from_iter_char_ref": {"collect": "from_iter_char"},
     "LeanString.from_iter_box": {"extend": "extend_box"},
